@@ -90,6 +90,13 @@ CHECKS.update({
         note='normalisation is a cited property of the closed forms; guess() not decided; scale >= 1e-15 assumed (clamp)', ref='3 C16'),
 })
 
+CHECKS.update({
+    'C18': dict(
+        level='other', technique='abstract interpretation (rotation vector, geometry kernels, transmission fraction) ; constant-table lint of the literal quadrature rules; effect summaries',
+        text='Static: the rotation from the z axis to the cylinder axis uses an angle ranging over [0, pi]; the literal disk rules have positive weights summing to pi, nodes in the disk and exact monomial moments up to degree 7/17/31; product-rule assembly, scaling, centre and volume; transmission = sum w exp(-mu (L_in+L_out))/volume with L_in along -beam; interval/slab/cylinder intersection formulas equal their reference normal forms; no module-level state is written.',
+        note='accuracy of the quadrature on the integrand and degenerate (tangent/parallel) rays are runtime numerics, not decided', ref='3 C18'),
+})
+
 NA_REASON = 'check not built yet (planned: see DESIGN.md section 3)'
 
 
